@@ -1,2 +1,197 @@
+pub mod c04;
+pub mod c12;
 pub mod c13;
 pub mod c14;
+pub mod mb;
+pub mod mbchecks;
+
+use crate::runner::{PartOutcome, RunCtx, Viol};
+use serde_json::Value;
+
+pub struct CheckDef {
+    pub id: &'static str,
+    pub run: fn(&RunCtx) -> Vec<PartOutcome>,
+    pub replay: fn(&str, &Value) -> Option<Result<Result<(), Viol>, String>>,
+    pub rule: &'static str,
+    pub level: &'static str,
+    pub assumptions: &'static [&'static str],
+}
+
+const SIM_ASSUMPTIONS: &[&str] = &[
+    "SIM engine: the repository's user_state_process served over in-memory duplex streams (hook H1) on a single-threaded Tokio runtime with paused clock; accept loop / TCP / TLS are bypassed",
+    "reference model (model.rs) written from the property statements; don't-care regions listed in DESIGN.md section 11 are followed, not judged",
+    "all server output is tokenised by the reference tokenizer (refparse.rs)",
+];
+
+
+fn run_c01(ctx: &RunCtx) -> Vec<PartOutcome> {
+    mbchecks::run_spec(ctx, &mbchecks::C01, 6000, 100000)
+}
+fn replay_c01(part: &str, input: &Value) -> Option<Result<Result<(), Viol>, String>> {
+    mbchecks::replay_spec(&mbchecks::C01, part, input)
+}
+
+fn run_c07(ctx: &RunCtx) -> Vec<PartOutcome> {
+    mbchecks::run_spec(ctx, &mbchecks::C07, 8000, 150000)
+}
+fn replay_c07(part: &str, input: &Value) -> Option<Result<Result<(), Viol>, String>> {
+    mbchecks::replay_spec(&mbchecks::C07, part, input)
+}
+
+fn run_c08(ctx: &RunCtx) -> Vec<PartOutcome> {
+    mbchecks::run_spec(ctx, &mbchecks::C08, 8000, 150000)
+}
+fn replay_c08(part: &str, input: &Value) -> Option<Result<Result<(), Viol>, String>> {
+    mbchecks::replay_spec(&mbchecks::C08, part, input)
+}
+
+fn run_c09(ctx: &RunCtx) -> Vec<PartOutcome> {
+    mbchecks::run_spec(ctx, &mbchecks::C09, 8000, 150000)
+}
+fn replay_c09(part: &str, input: &Value) -> Option<Result<Result<(), Viol>, String>> {
+    mbchecks::replay_spec(&mbchecks::C09, part, input)
+}
+
+fn run_c10(ctx: &RunCtx) -> Vec<PartOutcome> {
+    mbchecks::run_spec(ctx, &mbchecks::C10, 8000, 150000)
+}
+fn replay_c10(part: &str, input: &Value) -> Option<Result<Result<(), Viol>, String>> {
+    mbchecks::replay_spec(&mbchecks::C10, part, input)
+}
+
+fn run_c11(ctx: &RunCtx) -> Vec<PartOutcome> {
+    mbchecks::run_spec(ctx, &mbchecks::C11, 6000, 100000)
+}
+fn replay_c11(part: &str, input: &Value) -> Option<Result<Result<(), Viol>, String>> {
+    mbchecks::replay_spec(&mbchecks::C11, part, input)
+}
+
+fn run_c15(ctx: &RunCtx) -> Vec<PartOutcome> {
+    mbchecks::run_spec(ctx, &mbchecks::C15, 5000, 80000)
+}
+fn replay_c15(part: &str, input: &Value) -> Option<Result<Result<(), Viol>, String>> {
+    mbchecks::replay_spec(&mbchecks::C15, part, input)
+}
+
+fn run_c16(ctx: &RunCtx) -> Vec<PartOutcome> {
+    mbchecks::run_spec(ctx, &mbchecks::C16, 6000, 100000)
+}
+fn replay_c16(part: &str, input: &Value) -> Option<Result<Result<(), Viol>, String>> {
+    mbchecks::replay_spec(&mbchecks::C16, part, input)
+}
+
+fn run_c19(ctx: &RunCtx) -> Vec<PartOutcome> {
+    mbchecks::run_spec(ctx, &mbchecks::C19, 6000, 100000)
+}
+fn replay_c19(part: &str, input: &Value) -> Option<Result<Result<(), Viol>, String>> {
+    mbchecks::replay_spec(&mbchecks::C19, part, input)
+}
+
+pub fn all() -> Vec<CheckDef> {
+    vec![
+        CheckDef {
+            id: "C04",
+            run: c04::run,
+            replay: c04::replay,
+            rule: "generated histories of JOIN (single/lists/keys), PART, KICK, NICK, QUIT, abrupt close, new users, mode changes over 3-6 users and 4 channels; after every step NAMES/WHO/WHOIS probes from the actor and a rotating viewer, all viewers at the end; non-trivial = >= 3 membership changes incl. a PART/KICK/NICK/QUIT; distinct by capped counts of each change kind",
+            level: "exploration",
+            assumptions: SIM_ASSUMPTIONS,
+        },
+        CheckDef {
+            id: "C01",
+            run: run_c01,
+            replay: replay_c01,
+            rule: "generated histories (joins, parts, kicks, nick changes, rank/mode changes, disconnects) over 4-6 users with ranked members, then PRIVMSG/NOTICE with 1-5 targets mixing channels, status-prefixed channels (every subset of ~&@%+ on # and & channels), nicks, duplicates and non-existent names; oracle = exact multiset of copies per connection with sender prefix, target and text as sent; non-trivial = a send whose accepted target has a non-empty audience in a case that also had membership/rank churn; distinct by (status letters/audience bucket of the sends, churn kinds)",
+            level: "exploration",
+            assumptions: SIM_ASSUMPTIONS,
+        },
+        CheckDef {
+            id: "C07",
+            run: run_c07,
+            replay: replay_c07,
+            rule: "channel constraint vectors (+k, +l around occupancy, +i, ban/except/invex masks derived from candidate sources, invitations, max_joins 1..3) set up by a founder, then JOINs (single and comma lists with per-channel keys) by non-members; oracle = admission predicate of the statement with the reference glob; refused => >=1 numeric and only numerics of failing conditions, nothing announced, probes unchanged; accepted => echo+353/366, announced to every member, invitation consumed; non-trivial = JOIN to an existing channel with >=2 constraint kinds active; distinct by (constraint vector, outcome, failing numerics)",
+            level: "exploration",
+            assumptions: SIM_ASSUMPTIONS,
+        },
+        CheckDef {
+            id: "C08",
+            run: run_c08,
+            replay: replay_c08,
+            rule: "actors of every rank combination (set up by the founder, incl. founders that dropped o or q) issue MODE strings of 1-4 letters over q a o h v b e I k l i m t n s with both signs, member/non-member/unknown targets and list queries; oracle = privilege matrix of the statement at command start; announcement multiset = applied changes to all members; 482/442/441 for refused; 324/353/WHO probes after every command; non-trivial = command mixing refused and applied letters or a q/a/o/h change; distinct by (actor rank, applied letters, refusals)",
+            level: "exploration",
+            assumptions: SIM_ASSUMPTIONS,
+        },
+        CheckDef {
+            id: "C09",
+            run: run_c09,
+            replay: replay_c09,
+            rule: "actor/victim rank pairs (multi-flag ranks), KICK lists with absent/own names and comments, TOPIC set/clear/read on +-t, INVITE of present/absent/unknown users on +-i followed by JOINs; oracle = rank rules of the statement, audience of announcements, one-shot admission; non-trivial = KICK of/by ranked members, TOPIC/INVITE refused for rank, or an invitation that admits; distinct by those tags",
+            level: "exploration",
+            assumptions: SIM_ASSUMPTIONS,
+        },
+        CheckDef {
+            id: "C10",
+            run: run_c10,
+            replay: replay_c10,
+            rule: "sender membership x rank x +n/+s/+m x ban/except masks relative to the sender x PRIVMSG/NOTICE x existing/non-existing targets x away recipients after mode/nick/membership churn; oracle = deliver predicate of the statement; refused => nobody receives and a PRIVMSG sender gets 404; NOTICE never yields a server-prefixed line; 301 with the away text; non-trivial = send with >=2 of {outsider, n/s, m, ban, except} in play or NOTICE to a refusing/non-existent/away target; distinct by (condition vector, outcome)",
+            level: "exploration",
+            assumptions: SIM_ASSUMPTIONS,
+        },
+        CheckDef {
+            id: "C11",
+            run: run_c11,
+            replay: replay_c11,
+            rule: "configs with 1-2 operators (mask none/matching/non-matching), default modes incl. o/O; sequences of OPER (right/wrong name/password), MODE own/foreign nick +-{i,o,O,w}, NICK onto operator names, KILL/DIE/SQUIT/WALLOPS/STATS from every privilege level; oracle = privilege ledger (only OPER/default modes confer; -o/-O/disconnect remove), 313/221/WALLOPS/KILL behaviour; non-trivial = a refused OPER or MODE +o/+O attempt together with a privileged verb; distinct by (routes attempted, verbs)",
+            level: "exploration",
+            assumptions: SIM_ASSUMPTIONS,
+        },
+        CheckDef {
+            id: "C15",
+            run: run_c15,
+            replay: replay_c15,
+            rule: "user state vectors (memberships with ranks in 1-3 channels, +i/+w, operator via OPER, away, pending invitation to a +i channel) x new nick kinds (free, taken, previously used, invalid), repeated; oracle = after an accepted NICK all probes (NAMES prefixes, WHO, WHOIS 313/319, MODE, 301, WALLOPS, JOIN by invitation, WHOWAS, ISON) from every viewer show the state under the new nick; refused => nothing changes; non-trivial = accepted rename of a user with >=2 kinds of attached state; distinct by (state vector, fresh/reused nick)",
+            level: "exploration",
+            assumptions: SIM_ASSUMPTIONS,
+        },
+        CheckDef {
+            id: "C16",
+            run: run_c16,
+            replay: replay_c16,
+            rule: "create/use/empty/recreate cycles with PART, KICK, QUIT, drop, KILL in any order over 3-4 users, max_joins quota, 0-3 predefined channels with random topic/flags/key/limit/mask lists/rank lists; oracle = lifecycle rules of the statement via 353 prefixes, 324, LIST, LUSERS 254, 403, 331/332; non-trivial = >=2 channel creations and >=1 departure; distinct by (creations, departures, departure kinds, predefined involved)",
+            level: "exploration",
+            assumptions: SIM_ASSUMPTIONS,
+        },
+        CheckDef {
+            id: "C19",
+            run: run_c19,
+            replay: replay_c19,
+            rule: "histories of registrations, MODE +-i/+-o/+-O, repeated/failed OPER, default modes, renames, channel creation/destruction and endings (QUIT, drop, KILL) with LUSERS/ISON/USERHOST after every step; oracle = model counts and high-water mark, exact presence sets and flags; non-trivial = repeated OPER, a +-o/+-O toggle or an exit before a LUSERS; distinct by capped counts",
+            level: "exploration",
+            assumptions: SIM_ASSUMPTIONS,
+        },
+        CheckDef {
+            id: "C12",
+            run: c12::run,
+            replay: c12::replay,
+            rule: "pairs of worlds that differ only in the hidden part (a +s channel with members/topic/key/ranks, or a +i user with memberships/away) x observer kinds (plain outsider, member of other channels, IRC operator) x 4-9 queries drawn from LIST/NAMES/WHO/WHOIS with no argument, the hidden name, comma lists mixing hidden/public/non-existent names and wildcard masks; oracle = equal normalised observer transcripts, plus PRIVMSG/NOTICE into the secret channel reaches nobody; non-trivial = hidden part non-empty; distinct by (hidden kind, query verb/form, observer kind)",
+            level: "exploration",
+            assumptions: &["two-world differential: both worlds run the same server code; only answers to the observer's LIST/NAMES/WHO/WHOIS (+TOPIC/MODE of the hidden channel) are compared", "LIST member counts are excluded for the invisible-user case, LUSERS/ISON are not asked"],
+        },
+        CheckDef {
+            id: "C13",
+            run: c13::run_pure,
+            replay: c13::replay,
+            rule: "lines from a grammar generator (verb in random case, middles that may contain ':', optional trailing incl. empty, blank runs), a byte-level generator and all strings of length <= 8/10 over {SP ':' 'a' ',' '#'}; non-trivial = reference parse has >= 2 parameters and one of: ':' inside a middle, blank runs, empty trailing, mixed-case verb; distinct by (verb, #params, those four flags)",
+            level: "exploration",
+            assumptions: &["reference tokenizer (refparse.rs, self-tested) is the IRC grammar of the statement", "TAB/VT/FF/CR/LF inside a line and leading non-ASCII blanks are not judged"],
+        },
+        CheckDef {
+            id: "C14",
+            run: c14::run,
+            replay: c14::replay,
+            rule: "mask/text pairs: masks derived from the text by wildcarding/lengthening edits, independent random pairs, and all pairs of strings of length <= 4/5 over {a b * ? e-acute}; non-trivial = mask has a wildcard and a literal and a one-edit neighbour of the text answers differently, or a multi-byte pair with a wildcard; distinct by (wildcard skeleton, text length bucket, answer, ascii/multibyte)",
+            level: "exploration",
+            assumptions: &["reference glob (refglob.rs, textbook DP over Unicode scalar values, self-tested)"],
+        },
+    ]
+}
